@@ -119,6 +119,14 @@ class World:
         self.recfmt = PPRecordFmt("id:3,st/full:16,st/val:5,name:4", fields=["id", "name", "st"], fields_types={"st": self.enum})
         self.pp = PrettyPrinter()
         self.ppj = PrettyPrinter(fmt_json=True)
+        # git history report over a small stub repository (two release branches + master, built / not built / not merged parts)
+        import ak.ghist as G
+        from vf.props.c06 import StubRepo
+        shape = {1: [], 2: [1], 3: [2], 4: [2], 5: [4]}
+        repo = StubRepo("main", shape, {c: ("BUG-1 fix" if c in (2, 3, 5) else "other") for c in shape}, {2: "build_102_release_1_0_success"},
+                        {"master": 5, "release/1.9": 3, "release/1.10": 4})
+        coll = G.ReposCollection({"main": G.ProjectRepo("main", repo, "origin")})
+        self.report = G.GHistReport(list(coll.make_reports_data("BUG-1 ")), G.ReportFormatter())
 
     def render(self, kind: int, conf, no_color: bool, via_global: bool, twin=None, ambient=None):
         """-> (text consumed whole, text consumed line by line).  `ambient`: the global configuration in force while a
@@ -132,8 +140,8 @@ class World:
             if ambient is not None:
                 C.set_global_colors_config(ambient)
         try:
-            if kind in (0, 1, 2):
-                mk = [lambda: self.table.ch_text(**kw), lambda: self.pp(DATA, **kw), lambda: self.ppj(DATA, **kw)][kind]
+            if kind in (0, 1, 2, 5):
+                mk = {0: lambda: self.table.ch_text(**kw), 1: lambda: self.pp(DATA, **kw), 2: lambda: self.ppj(DATA, **kw), 5: lambda: self.report.ch_text(**kw)}[kind]
                 whole = str(mk())
                 by_line = "\n".join(str(l) for l in mk())
                 collected = list(mk())              # all lines taken first, read afterwards
@@ -163,10 +171,12 @@ class World:
             return iter(self.pp(DATA, **kw))
         if kind == 2:
             return iter(self.ppj(DATA, **kw))
+        if kind == 5:
+            return iter(self.report.ch_text(**kw))
         return None
 
 
-N_KINDS = 5
+N_KINDS = 6
 
 
 def _run_history(steps, c1: int, c2: int, adversarial_id: bool) -> None:
